@@ -415,26 +415,35 @@ def fixLoop : Nat → Option Str → Str → Option Char → Nat → Rd → Str 
           fixLoop fuel g.1 (acc ++ h.line) h.q r2.linecount g.2
     else (acc, endl, r)
 
+/-- `s = line[:5].strip(); label = int(s) if s else None`; outer `none` = `ValueError`
+    (`int("1 2")`: a label field with an embedded blank) -/
+def fixedLabel (line : Str) : Option (Option Nat) :=
+  let lab := strip (line.take 5)
+  if lab != [] && !lab.all isDigit then none
+  else some (if lab = [] then none else some (digitsToNat lab))
+
+/-- construct name of a fixed-form line: `(name, line[:6] + line[6:][m.end():].lstrip())` -/
+def fixedName (line : Str) : Option Str × Str :=
+  match nameRe (line.drop 6) with
+  | some (n, rest) => (some n, line.take 6 ++ rest)
+  | none => (none, line)
+
 /-- the `is_fixed` part of `get_source_item` once the columns 1-5 are valid -/
 def fixedItem (r : Rd) (line : Str) (s : Nat) : Res Item × Rd :=
-  let lab := strip (line.take 5)
-  if lab != [] && !lab.all isDigit then (.err, r) else          -- `int("1 2")` : ValueError
-  let label : Option Nat := if lab = [] then none else some (digitsToNat lab)
-  let nm := nameRe (line.drop 6)
-  let name := nm.map (·.1)
-  let line1 := match nm with
-    | some (_, rest) => line.take 6 ++ rest
-    | none => line
-  if strip (line1.drop 6) = [] then
-    if name.isSome then (if warnRaises r then .err else .exit, r)
-    else if label.isSome && warnRaises r then (.err, r)
-    else (.ok (.comment [] s r.linecount false), r)
-  else
-    let h := handleInlineComment (line1.drop 6) s none
-    let r1 := { r with fifo := r.fifo ++ h.comments }
-    let g := getNextLine r1
-    let (acc, endl, r2) := fixLoop (r1.src.length + r1.filo.length + 2) g.1 h.line h.q r.linecount g.2
-    (mkLine acc label name s endl, r2)
+  match fixedLabel line with
+  | none => (.err, r)
+  | some label =>
+    let nl := fixedName line
+    if strip (nl.2.drop 6) = [] then
+      if nl.1.isSome then (if warnRaises r then .err else .exit, r)
+      else if label.isSome && warnRaises r then (.err, r)
+      else (.ok (.comment [] s r.linecount false), r)
+    else
+      let h := handleInlineComment (nl.2.drop 6) s none
+      let r1 := { r with fifo := r.fifo ++ h.comments }
+      let g := getNextLine r1
+      let out := fixLoop (r1.src.length + r1.filo.length + 2) g.1 h.line h.q r.linecount g.2
+      (mkLine out.1 label nl.1 s out.2.1, out.2.2)
 
 /-- `get_source_item()` -/
 def getSourceItem (r0 : Rd) : Res Item × Rd :=
@@ -488,12 +497,14 @@ def splitSemicolon (it : Item) (r : Rd) : Res Item × Rd :=
   match it.lineView with
   | none => (.ok it, r)
   | some (text, label, name, s, e) =>
-    let (gl, m) := stringReplaceMap text
-    if !gl.contains ';' then (.ok it, r) else
-    match splitOnChar gl ';' with
+    -- trigger: `";" in item.get_line()` (the lower-cased tokenisation)
+    if !(stringReplaceMap text true).1.contains ';' then (.ok it, r) else
+    -- `tokenised, repmap = string_replace_map(item.line, lower=False)`
+    let tm := stringReplaceMap text false
+    match splitOnChar tm.1 ';' with
     | [] => (.err, r)
     | first :: rest =>
-      match mkLine (applyMap m (strip first)) label name s e, splitRest m s e rest with
+      match mkLine (applyMap tm.2 (strip first)) label name s e, splitRest tm.2 s e rest with
       | .ok f, some others => (.ok f, { r with fifo := others ++ r.fifo })
       | _, _ => (.err, r)
 
